@@ -49,12 +49,15 @@ def run(ctx, res):
     res.guard(RR.rule_source_error_path, prog, res)
     res.guard(RR.rule_thread_exit, prog, res)
     res.guard(RR.rule_start_reset, prog, res)
+    # what the failing sink discards is the whole rest of its input, in a loop until empty
+    res.guard(RR.rule_consume, prog, res, "video_sink_thread", "append")
+    res.guard(RR.rule_loop_until_empty, prog, res, "video_sink_thread", "last")
     # a failed / not yet filled reservation of the source is never published by the filter
     from .c10 import commit_own
     res.guard(commit_own, prog, res, prog.func("process_data"), "R-COMMIT-OWN")
     res.require_min("R-COMMIT-OWN", 2)
     res.require_min("HAL-FAIL-SUMMARY", 2)
-    res.require_min("R-SINK-ERROR", 8)
+    res.require_min("R-SINK-ERROR", 12)
     res.require_min("R-SOURCE-ERROR", 5)
     res.require_min("R-THREAD-EXIT", 9)
     res.require_min("R-START-RESET", 6)
